@@ -11,6 +11,7 @@ import QbiceVerif.Lemmas.EnginePersistCrash2
 import QbiceVerif.Lemmas.EngineCoreEx
 import QbiceVerif.Props.C10
 import QbiceVerif.Lemmas.EnginePersistCoreFw4
+import QbiceVerif.Lemmas.EnginePersistCoreFw5
 import QbiceVerif.Lemmas.EngineCoreFwEx
 
 namespace Qbice.Persist
@@ -96,6 +97,52 @@ theorem crash_sound_fw_partial {p : Program} (wf : WF p) (sh : Shape p) (ops : L
   have inv' : Inv p (restart t) := inv.setLog []
   refine ⟨inv', ⟨pre, hp, hi⟩, fun cont => ?_⟩
   exact (runOps_spec wf sh cont (restart t) inv').mono (fun r h => h.1)
+
+/-- The same as an EQUATION (no `Sat`): for a well-formed history (`HistOK`: the first operation is a
+    session that sets every input key; sessions set input keys only, rounds ask keys of the program only)
+    and EVERY store image `t` of it, every well-formed continuation `cont` (`OpsOK`: sessions set input keys
+    only, rounds ask keys of the program only) run on the reopened engine IS `.ok` — no error of any
+    kind — with the from-scratch outputs for the inputs, pinned external values and world of the image;
+    the final state satisfies the invariant.  The images are published from the first session on, so all
+    inputs are set in each of them.  The EMPTY store (a crash before the first batch) is the second case:
+    no input is set there, the continuation must itself begin with a session that sets every input key
+    (a round on the empty store answers `.error (.inputNotSet k)`, example in `Props/C01.lean`; the
+    implementation panics there).  PARTIAL: `Shape p`. -/
+theorem crash_total_fw_partial {p : Program} (wf : WF p) (sh : Shape p) {ops : List Op}
+    (hok : HistOK p ops) {t : St} {cont : List Op} (hc : OpsOK p cont)
+    (ht : t ∈ imagesOps p ops {} ∨ (t = {} ∧ ∃ ws rest, cont = .sess ws :: rest ∧ SetsAll p ws)) :
+    ∃ outs s', runOps p cont (restart t) = .ok (outs, s') ∧
+      OutOK p cont outs (refOf (restart t)) ∧ Inv p s' := by
+  have key : Inv p (restart t) ∧
+      (InputsSet p (restart t) ∨ ∃ ws rest, cont = .sess ws :: rest ∧ SetsAll p ws) := by
+    rcases ht with ht | ⟨rfl, h⟩
+    · exact ⟨(crash_sound_fw_partial wf sh ops (List.mem_cons_of_mem _ ht)).1,
+        Or.inl (imagesOps_hist_inputsSet wf sh hok t ht)⟩
+    · exact ⟨Inv.init p, Or.inr h⟩
+  obtain ⟨inv', hin⟩ := key
+  obtain ⟨⟨outs, s'⟩, h⟩ := runOps_total wf sh cont (restart t) inv' hc hin
+  obtain ⟨o, i⟩ := (runOps_spec wf sh cont (restart t) inv').ok h
+  exact ⟨outs, s', h, o, i⟩
+
+/-- non-vacuity: the history of the example below is well formed, and so is the continuation `round [5, 3]` -/
+example : HistOK exD [.sess [.set 0 1, .set 1 5], .round [5], .sess [.set 0 0], .round [5]] ∧
+    OpsOK exD [.round [5, 3]] := by
+  refine ⟨⟨⟨?_, ?_, ?_, ?_, trivial⟩, _, _, rfl, ?_⟩, ?_, trivial⟩
+  · intro k v hm
+    simp at hm
+    rcases hm with ⟨rfl, _⟩ | ⟨rfl, _⟩ <;> exact ⟨_, rfl, rfl⟩
+  · intro k hk; simp at hk; subst hk; decide
+  · intro k v hm
+    simp at hm
+    obtain ⟨rfl, _⟩ := hm; exact ⟨_, rfl, rfl⟩
+  · intro k hk; simp at hk; subst hk; decide
+  · intro k d hp hk
+    match k, hp with
+    | 0, _ => exact ⟨1, by simp⟩
+    | 1, _ => exact ⟨5, by simp⟩
+    | 2, hp | 3, hp | 4, hp | 5, hp => simp [exD] at hp; subst hp; simp at hk
+    | n + 6, hp => simp [exD] at hp
+  · intro k hk; simp at hk; rcases hk with rfl | rfl <;> decide
 
 /-- … in particular every single query by the user on the reopened engine returns the from-scratch
     value `cur` (from the inputs, pinned externals and world of the image) and never runs out of fuel. -/
